@@ -50,7 +50,7 @@ func panicSite(msg string) string {
 	return "?|" + kind
 }
 
-func pktOf(b []byte) *packet.Packet {
+func totPkt(b []byte) *packet.Packet {
 	var p packet.Packet
 	copy(p[:], b)
 	return &p
@@ -76,11 +76,11 @@ func tot(name string, f func(b []byte, n int) bool) {
 	})
 }
 
-func same(a, b []byte) bool { return bytes.Equal(a, b) }
+func totSame(a, b []byte) bool { return bytes.Equal(a, b) }
 
 func init() {
 	tot("pkt.read", func(b []byte, n int) bool {
-		p := pktOf(b)
+		p := totPkt(b)
 		q := *p
 		packet.PayloadUnitStartIndicator(p)
 		packet.Pid(p)
@@ -113,7 +113,7 @@ func init() {
 		return *p == q
 	})
 	tot("pkt.setpayload", func(b []byte, n int) bool {
-		p := pktOf(b)
+		p := totPkt(b)
 		if n < 0 {
 			n = 0
 		}
@@ -125,27 +125,27 @@ func init() {
 		p.SetPayload(d)
 		p.Payload()
 		packet.Payload(p)
-		return same(d, d0)
+		return totSame(d, d0)
 	})
 	tot("pkt.setpayloadfn", func(b []byte, n int) bool {
-		p := pktOf(b)
+		p := totPkt(b)
 		if n < 0 {
 			n = 0
 		}
 		d := make([]byte, n%256)
 		d0 := append([]byte{}, d...)
 		packet.SetPayload(p, d)
-		return same(d, d0)
+		return totSame(d, d0)
 	})
 	tot("pkt.setafc", func(b []byte, n int) bool {
-		p := pktOf(b)
+		p := totPkt(b)
 		p.SetAdaptationFieldControl(packet.AdaptationFieldControlOptions(n & 3))
 		p.Payload()
 		packet.Header(p)
 		return true
 	})
 	tot("af.getters", func(b []byte, n int) bool {
-		p := pktOf(b)
+		p := totPkt(b)
 		if n&1 == 1 {
 			p[3] |= 0x20
 		}
@@ -172,7 +172,7 @@ func init() {
 	})
 	tot("af.setters", func(b []byte, n int) bool {
 		op := n % 20
-		p := pktOf(b)
+		p := totPkt(b)
 		if n >= 20 {
 			p[3] |= 0x20
 		}
@@ -206,7 +206,7 @@ func init() {
 		case 10:
 			af.SetSpliceCountdown(1)
 		case 11:
-			q := pktOf(b)
+			q := totPkt(b)
 			q[3] |= 0x20
 			q[4] = 183
 			qa, _ := q.AdaptationField()
@@ -226,7 +226,7 @@ func init() {
 		case 18:
 			af.SetElementaryStreamPriority(false)
 		case 19:
-			q := pktOf(b)
+			q := totPkt(b)
 			qa, e2 := q.AdaptationField()
 			if e2 == nil {
 				p.SetAdaptationField(qa)
@@ -239,10 +239,10 @@ func init() {
 		af.TransportPrivateData()
 		af.AdaptationFieldExtension()
 		p.Payload()
-		return same(arg, arg0)
+		return totSame(arg, arg0)
 	})
 	tot("affn", func(b []byte, n int) bool {
-		p := pktOf(b)
+		p := totPkt(b)
 		q := *p
 		adaptationfield.Length(p)
 		adaptationfield.IsDiscontinuous(p)
@@ -272,7 +272,7 @@ func init() {
 			th.Data()
 		}
 		psi.CanBuildPMT(b, uint16(n))
-		return same(b, b0)
+		return totSame(b, b0)
 	})
 	tot("psi.pat", func(b []byte, n int) bool {
 		b0 := append([]byte{}, b...)
@@ -281,9 +281,9 @@ func init() {
 			p.NumPrograms()
 			p.ProgramMap()
 			p.SPTSpmtPID()
-			psi.IsPMT(pktOf(b), p)
+			psi.IsPMT(totPkt(b), p)
 		}
-		return same(b, b0)
+		return totSame(b, b0)
 	})
 	tot("psi.pmt", func(b []byte, n int) bool {
 		b0 := append([]byte{}, b...)
@@ -326,25 +326,25 @@ func init() {
 			p.Pids()
 			_ = p.String()
 		}
-		return same(b, b0)
+		return totSame(b, b0)
 	})
 	tot("psi.done", func(b []byte, n int) bool {
 		b0 := append([]byte{}, b...)
 		psi.PmtAccumulatorDoneFunc(b)
-		return same(b, b0)
+		return totSame(b, b0)
 	})
 	tot("psi.crc", func(b []byte, n int) bool {
 		b0 := append([]byte{}, b...)
 		psi.ExtractCRC(b)
-		return same(b, b0)
+		return totSame(b, b0)
 	})
 	tot("psi.filter", func(b []byte, n int) bool {
 		var pk []*packet.Packet
 		for i := 0; i+188 <= len(b); i += 188 {
-			pk = append(pk, pktOf(b[i:i+188]))
+			pk = append(pk, totPkt(b[i:i+188]))
 		}
 		if len(pk) == 0 {
-			pk = append(pk, pktOf(b))
+			pk = append(pk, totPkt(b))
 		}
 		snap := make([]packet.Packet, len(pk))
 		for i := range pk {
@@ -367,7 +367,7 @@ func init() {
 			p.ProgramMap()
 			p.SPTSpmtPID()
 		}
-		return same(b, b0)
+		return totSame(b, b0)
 	})
 	tot("psi.readpmt", func(b []byte, n int) bool {
 		b0 := append([]byte{}, b...)
@@ -376,7 +376,7 @@ func init() {
 			_ = p.String()
 			p.Pids()
 		}
-		return same(b, b0)
+		return totSame(b, b0)
 	})
 	tot("pes.new", func(b []byte, n int) bool {
 		b0 := append([]byte{}, b...)
@@ -398,7 +398,7 @@ func init() {
 		if len(b) >= 5 {
 			pes.ExtractTime(b)
 		}
-		return same(b, b0)
+		return totSame(b, b0)
 	})
 	tot("ebp.read", func(b []byte, n int) bool {
 		b0 := append([]byte{}, b...)
@@ -419,7 +419,7 @@ func init() {
 			e.ExtensionFlag()
 			_ = fmt.Sprint(e)
 		}
-		return same(b, b0)
+		return totSame(b, b0)
 	})
 	tot("scte.new", func(b []byte, n int) bool {
 		b0 := append([]byte{}, b...)
@@ -490,7 +490,7 @@ func init() {
 			}
 			st.Open()
 		}
-		return same(b, b0)
+		return totSame(b, b0)
 	})
 	tot("pkt.sync", func(b []byte, n int) bool {
 		b0 := append([]byte{}, b...)
@@ -498,13 +498,13 @@ func init() {
 		r := bufio.NewReaderSize(bytes.NewReader(b), sz)
 		packet.Sync(r)
 		packet.IsSynced(bufio.NewReaderSize(bytes.NewReader(b), sz))
-		return same(b, b0)
+		return totSame(b, b0)
 	})
 	tot("pkt.acc", func(b []byte, n int) bool {
 		a := packet.NewAccumulator(psi.PmtAccumulatorDoneFunc)
 		ok := true
 		for i := 0; i+188 <= len(b); i += 188 {
-			p := pktOf(b[i : i+188])
+			p := totPkt(b[i : i+188])
 			q := *p
 			a.WritePacket(p)
 			a.Bytes()
@@ -527,16 +527,16 @@ func init() {
 			return 188, nil
 		}))
 		w.Write(b)
-		w.(io.ReaderFrom).ReadFrom(iotest1(b))
+		w.(io.ReaderFrom).ReadFrom(totOneByteReader(b))
 		w.(io.ReaderFrom).ReadFrom(bytes.NewReader(b))
-		return same(b, b0)
+		return totSame(b, b0)
 	})
 }
 
 // one-byte-at-a-time reader
-type oneByte struct{ b []byte }
+type totOneByte struct{ b []byte }
 
-func (o *oneByte) Read(p []byte) (int, error) {
+func (o *totOneByte) Read(p []byte) (int, error) {
 	if len(o.b) == 0 {
 		return 0, io.EOF
 	}
@@ -547,4 +547,4 @@ func (o *oneByte) Read(p []byte) (int, error) {
 	o.b = o.b[1:]
 	return 1, nil
 }
-func iotest1(b []byte) io.Reader { return &oneByte{append([]byte{}, b...)} }
+func totOneByteReader(b []byte) io.Reader { return &totOneByte{append([]byte{}, b...)} }
